@@ -234,6 +234,18 @@ class Driver:
         r = rng.random()
         if rng.random() < 0.06:
             return self.twins()
+        if rng.random() < 0.05:
+            # x, y, x on the stack (equal entries with another one in between), then everything popped from the top
+            x = self.build(rng.randint(0, 1))
+            y = self.build(rng.randint(0, 1))
+            if tb.of_repo(x) != tb.of_repo(y):
+                x2 = self.it.pattern(x)
+                self.journal.append(('pattern', (x,)))
+                self.c('equal_entries_sandwich')
+                self.call('pop', x2)
+            self.call('pop', y)
+            self.call('pop', x)
+            return
         if r < 0.4:
             p = self.build(rng.randint(0, 2))
             if rng.random() < 0.5:
